@@ -13,7 +13,7 @@ if ! git -C "$WT" apply "$PATCH" 2>"$OUT/apply.err"; then
   if ! git -C "$WT" apply --3way "$PATCH" 2>>"$OUT/apply.err"; then echo "$NAME APPLY-FAILED"; git -C /repo worktree remove --force "$WT"; exit 2; fi
 fi
 for id in "$@"; do
-  VERIF_REPO_OVERRIDE="$WT" VERIF_SCRATCH_OUT="$OUT" VERIF_SCRATCH_BUILD=/tmp/seedtest/_build /verif/vcheck "$id" --tier "${TIER:-quick}" >"$OUT/$id.log" 2>&1
+  VERIF_REPO_OVERRIDE="$WT" VERIF_SCRATCH_OUT="$OUT" VERIF_SCRATCH_BUILD="${SCRATCH_BUILD:-/tmp/seedtest/_build}" /verif/vcheck "$id" --tier "${TIER:-quick}" >"$OUT/$id.log" 2>&1
   code=$?
   echo "$NAME $id exit=$code $(grep -c '^VIOLATION' "$OUT/$id.log") violation line(s)"
   grep -A2 '^VIOLATION' "$OUT/$id.log" | grep -E 'class:|what:' | cut -c1-260 | head -6
